@@ -113,6 +113,29 @@ def _negate(test):
     return ast.copy_location(ast.UnaryOp(op=ast.Not(), operand=test), test)
 
 
+def _bool_simplify(e):
+    """a conditional expression with constant True / False arms as and / or / not - valid where only the truth of the value matters"""
+    if isinstance(e, ast.IfExp):
+        a, b = _bool_simplify(e.body), _bool_simplify(e.orelse)
+        ca = a.value if isinstance(a, ast.Constant) and isinstance(a.value, bool) else None
+        cb = b.value if isinstance(b, ast.Constant) and isinstance(b.value, bool) else None
+        t = e.test
+        if ca is False and cb is True:
+            return _negate(t)
+        if ca is True and cb is False:
+            return t
+        if ca is False:
+            return ast.copy_location(ast.BoolOp(op=ast.And(), values=[_negate(t), b]), e)
+        if cb is False:
+            return ast.copy_location(ast.BoolOp(op=ast.And(), values=[t, a]), e)
+        if ca is True:
+            return ast.copy_location(ast.BoolOp(op=ast.Or(), values=[t, b]), e)
+        if cb is True:
+            return ast.copy_location(ast.BoolOp(op=ast.Or(), values=[_negate(t), a]), e)
+        return ast.copy_location(ast.IfExp(test=t, body=a, orelse=b), e)
+    return e
+
+
 def _same(a, b):
     return ast.dump(a) == ast.dump(b)
 
@@ -367,6 +390,7 @@ class Normaliser(object):
             self._fold_delegates()
             self._tail_loop_returns()
             self._acquire_release_to_with()
+            self._walrus_comprehensions_to_loops()
         self._collect()
 
     def _tail_loop_returns(self):
@@ -401,6 +425,61 @@ class Normaliser(object):
                 loop.body = [R().visit(s_) for s_ in loop.body]
                 self.tail_returns += 1
                 self.inlined.append(('tail-loop return', fn.name, 'to-break'))
+
+    def _walrus_comprehensions_to_loops(self):
+        """`T = [elt for x in it if COND]` whose COND binds a name with `:=` is the loop `T = []; for x in it: w = E; if COND': T.append(elt)`
+        (the walrus target is a variable of the enclosing function in both forms; the hoisted binding must be the first thing COND evaluates;
+        the loop variable must not be used elsewhere in the function, because the loop form lets it outlive the loop)"""
+        norm_ = self
+        for t in self.trees.values():
+            for fn in [n for n in ast.walk(t) if isinstance(n, ast.FunctionDef)]:
+                if not any(isinstance(x, ast.NamedExpr) for x in ast.walk(fn)):
+                    continue
+
+                def rewrite(stmts, fn=fn):
+                    out = []
+                    for s_ in stmts:
+                        for fld in ('body', 'orelse', 'finalbody'):
+                            b = getattr(s_, fld, None)
+                            if isinstance(b, list) and b and isinstance(b[0], ast.stmt) and not isinstance(s_, (ast.FunctionDef, ast.ClassDef)):
+                                setattr(s_, fld, rewrite(b))
+                        for h in getattr(s_, 'handlers', []) or []:
+                            h.body = rewrite(h.body)
+                        done = False
+                        if isinstance(s_, ast.Assign) and len(s_.targets) == 1 and isinstance(s_.targets[0], ast.Name) and isinstance(s_.value, ast.ListComp) and \
+                                len(s_.value.generators) == 1 and not s_.value.generators[0].is_async and isinstance(s_.value.generators[0].target, ast.Name):
+                            g = s_.value.generators[0]
+                            wal = [x for c in g.ifs for x in ast.walk(c) if isinstance(x, ast.NamedExpr)]
+                            elt_w = [x for x in ast.walk(s_.value.elt) if isinstance(x, ast.NamedExpr)]
+                            tname, xname = s_.targets[0].id, g.target.id
+                            if len(wal) == 1 and not elt_w and len(g.ifs) == 1 and isinstance(wal[0].target, ast.Name) and _first_evaluated(g.ifs[0], wal[0]):
+                                wname = wal[0].target.id
+                                others = [x for x in ast.walk(fn) if isinstance(x, ast.Name) and x.id == xname and
+                                          not any(x is y for y in ast.walk(s_))]
+                                reads_t = any(isinstance(x, ast.Name) and x.id == tname for x in ast.walk(s_.value))
+                                if not others and not reads_t:
+                                    w = wal[0]
+
+                                    class R(ast.NodeTransformer):
+                                        def visit_NamedExpr(self_, n):
+                                            return ast.copy_location(ast.Name(id=wname, ctx=ast.Load()), n) if n is w else n
+                                    cond = R().visit(g.ifs[0])
+                                    loop = ast.For(target=ast.Name(id=xname, ctx=ast.Store()), iter=g.iter, orelse=[], type_comment=None, body=[
+                                        ast.Assign(targets=[ast.Name(id=wname, ctx=ast.Store())], value=w.value),
+                                        ast.If(test=cond, orelse=[], body=[ast.Expr(value=ast.Call(
+                                            func=ast.Attribute(value=ast.Name(id=tname, ctx=ast.Load()), attr='append', ctx=ast.Load()),
+                                            args=[s_.value.elt], keywords=[]))])])
+                                    init = ast.Assign(targets=[ast.Name(id=tname, ctx=ast.Store())], value=ast.List(elts=[], ctx=ast.Load()))
+                                    for n_ in (init, loop):
+                                        ast.copy_location(n_, s_)
+                                        ast.fix_missing_locations(n_)
+                                    out.extend([init, loop])
+                                    norm_.inlined.append(('list comprehension with :=', fn.name, 'to-loop'))
+                                    done = True
+                        if not done:
+                            out.append(s_)
+                    return out
+                fn.body = rewrite(fn.body)
 
     def _acquire_release_to_with(self):
         """`L.acquire(); try: B finally: L.release()` is `with L: B` (the context manager protocol of locks); a local that only names the
@@ -916,6 +995,12 @@ class Normaliser(object):
                                         return copy.deepcopy(bind[n.id]) if isinstance(n.ctx, ast.Load) and n.id in bind else n
                                 expr_ = S().visit(copy.deepcopy(body[0].value))
                                 call_ = calls[0]
+                                in_test = any((isinstance(p_, (ast.If, ast.While, ast.IfExp)) and p_.test is call_) or
+                                              (isinstance(p_, ast.comprehension) and any(c_ is call_ for c_ in p_.ifs)) or
+                                              (isinstance(p_, ast.UnaryOp) and isinstance(p_.op, ast.Not) and p_.operand is call_)
+                                              for p_ in ast.walk(fn))
+                                if in_test:
+                                    expr_ = _bool_simplify(expr_)
 
                                 class RC(ast.NodeTransformer):
                                     def visit_Call(self_, n):
